@@ -15,6 +15,9 @@
 package table
 
 import (
+	"encoding/binary"
+	"errors"
+
 	"github.com/RoaringBitmap/roaring/roaring64"
 	"github.com/vmihailenco/msgpack/v5"
 )
@@ -52,10 +55,43 @@ func Encode(t *Table) ([]byte, error) {
 	return msgpack.Marshal(p)
 }
 
+// ErrCorruptPack means that the received data does not describe a table.
+var ErrCorruptPack = errors.New("corrupt table pack")
+
+// maxAllocated guards make() against a corrupt header. It is far above any sane table size.
+const maxAllocated = uint64(1) << 40
+
+// validate checks that the indexed entries lie inside the transferred memory region. The pack comes from
+// the network, the table built from it is read without any further bounds check.
+func (p *Pack) validate() error {
+	if p.Allocated > maxAllocated || p.Offset > p.Allocated || uint64(len(p.Memory)) != p.Offset {
+		return ErrCorruptPack
+	}
+	for _, offset := range p.HKeys {
+		// KEY-LENGTH(uint8) | KEY(bytes) | TTL(uint64) | TIMESTAMP(uint64) | LASTACCESS(uint64) | VALUE-LENGTH(uint32) | VALUE(bytes)
+		if offset >= p.Offset {
+			return ErrCorruptPack
+		}
+		end := offset + 1 + uint64(p.Memory[offset]) + 8 + 8 + 8 + 4
+		if end > p.Offset {
+			return ErrCorruptPack
+		}
+		end += uint64(binary.BigEndian.Uint32(p.Memory[end-4 : end]))
+		if end > p.Offset {
+			return ErrCorruptPack
+		}
+	}
+	return nil
+}
+
 func Decode(data []byte) (*Table, error) {
 	p := &Pack{}
 	err := msgpack.Unmarshal(data, p)
 	if err != nil {
+		return nil, err
+	}
+
+	if err = p.validate(); err != nil {
 		return nil, err
 	}
 
